@@ -37,8 +37,8 @@ for p in props:
                             "where the rule says so) against an oracle written independently of the implementation; a violation is shrunk to a "
                             "JSON replay file. Exit 0 means the property held on every generated case of this seed and tier - evidence of "
                             "absence of the failure classes the generator constructs on purpose (listed in the rule), not a proof. Sensitivity "
-                            "of the check is demonstrated by mutants/ (deliberate breakages, all reported) and seeded/ (80 independent changes, "
-                            "all reported). Rule: " + m.RULE),
+                            "of the check is demonstrated by mutants/ (deliberate breakages, all reported) and seeded/ (%d independent changes of this property written by sub-agents that saw only the property text, "
+                            "all reported by the quick checks, see seeded/README.md). Rule: " % len(__import__("glob").glob(os.path.join(ROOT, "seeded", pid + "-*"))) + m.RULE),
             "design_ref": "DESIGN.md section 4, " + pid,
         },
         "level_note": "; ".join(getattr(m, "ASSUMPTIONS", [])) or "oracle and generator as described in DESIGN.md",
